@@ -243,6 +243,23 @@ def batch_data_sensitivity(ctx):
                               f"{lbl} of wrapped {nat.dtype.str} data and of the same bytes read as {swp.dtype.str} "
                               f"(values {nat[:3].tolist()}… vs {swp[:3].tolist()}…) get one persistent key",
                               {"dtype": dtn, "form": lbl})
+    # 0-d payloads: ndarray and NumPy scalar objects of every integer / inexact type with one value
+    zero_d = [np.int8(3), np.int16(3), np.int32(3), np.int64(3), np.uint8(3), np.uint16(3), np.uint64(3), np.float32(3),
+              np.float64(3), np.complex64(3), np.uint8(200), np.int64(200), np.uint16(7), np.int16(7)]
+    for form, wrap in (("scalar-object", lambda v: v), ("0-d-ndarray", lambda v: np.array(v))):
+        for lbl, f in (("wrapper", lambda d: pt.make_data_wrapper(d)), ("stack", lambda d: pt.stack([pt.make_data_wrapper(d)] * 2)),
+                       ("dict", lambda d: pt.make_dict_of_named_arrays({"o": pt.make_data_wrapper(d).reshape(1)}))):
+            keys = {}
+            for v in zero_d:
+                cases += 1
+                kk = keyb(f(wrap(v)))
+                other = keys.get(kk)
+                if other is not None and (other.dtype != v.dtype or other != v):
+                    dis += 1
+                    ctx.violation("key-not-injective:wrapped-0-d-data",
+                                  f"{lbl} of 0-d wrapped data ({form}): {other!r} ({other.dtype}) and {v!r} ({v.dtype}) get one "
+                                  "persistent key", {"form": form, "graph": lbl, "values": [repr(other), repr(v)]})
+                keys[kk] = v
     ctx.note_batch("wrapped-data-sensitivity", cases, dis, exhaustive=False, sizes=sizes)
 
 
